@@ -144,7 +144,25 @@ pub struct BridgeSpec {
     /// `poll_write_vectored` takes bytes across the slices, partially when the write script says so
     #[serde(default)]
     pub vectored: bool,
+    /// which `io::ErrorKind` the scripted failures of the local side carry (index into `LOCAL_ERR_KINDS`): every kind a socket, a
+    /// pipe or a TLS stream can report is an error of that operation and ends the bridge with it
+    #[serde(default)]
+    pub err_kind: u8,
 }
+pub const LOCAL_ERR_KINDS: [std::io::ErrorKind; 12] = [
+    std::io::ErrorKind::ConnectionAborted,
+    std::io::ErrorKind::NotConnected,
+    std::io::ErrorKind::ConnectionReset,
+    std::io::ErrorKind::BrokenPipe,
+    std::io::ErrorKind::TimedOut,
+    std::io::ErrorKind::UnexpectedEof,
+    std::io::ErrorKind::Other,
+    std::io::ErrorKind::InvalidData,
+    std::io::ErrorKind::PermissionDenied,
+    std::io::ErrorKind::WriteZero,
+    std::io::ErrorKind::ConnectionRefused,
+    std::io::ErrorKind::InvalidInput,
+];
 
 #[derive(Clone, Debug, Hash, PartialEq, Eq, Serialize, Deserialize)]
 pub enum AcceptPolicy {
@@ -1079,8 +1097,11 @@ impl ScriptedLocal {
             false
         }
     }
-    fn io_err(what: &str) -> std::io::Error {
-        std::io::Error::new(std::io::ErrorKind::ConnectionAborted, what.to_string())
+    fn io_err(&self, what: &str) -> std::io::Error {
+        std::io::Error::new(LOCAL_ERR_KINDS[self.spec.err_kind as usize % LOCAL_ERR_KINDS.len()], what.to_string())
+    }
+    fn kind_name(&self) -> String {
+        format!("{:?}", LOCAL_ERR_KINDS[self.spec.err_kind as usize % LOCAL_ERR_KINDS.len()])
     }
 }
 
@@ -1136,8 +1157,8 @@ impl AsyncBufRead for ScriptedLocal {
                     // reported ONCE, like a socket reports a reset once: what a later poll sees is the next script element
                     // (end-of-stream, another error, or nothing = pending for ever)
                     me.ri += 1;
-                    me.log.app(AppEv::LocalErr { stream: me.stream, op: "read".into(), kind: "ConnectionAborted".into() });
-                    return Poll::Ready(Err(Self::io_err("scripted read error")));
+                    me.log.app(AppEv::LocalErr { stream: me.stream, op: "read".into(), kind: me.kind_name() });
+                    return Poll::Ready(Err(me.io_err("scripted read error")));
                 }
             }
         }
@@ -1178,8 +1199,8 @@ impl AsyncWrite for ScriptedLocal {
             }
             Some(LW::Err) => {
                 me.wi += 1; // reported once; a later call sees the next script element (or accepts everything)
-                me.log.app(AppEv::LocalErr { stream: me.stream, op: "write".into(), kind: "ConnectionAborted".into() });
-                return Poll::Ready(Err(Self::io_err("scripted write error")));
+                me.log.app(AppEv::LocalErr { stream: me.stream, op: "write".into(), kind: me.kind_name() });
+                return Poll::Ready(Err(me.io_err("scripted write error")));
             }
         };
         for (i, b) in buf[..n].iter().enumerate() {
@@ -1218,8 +1239,8 @@ impl AsyncWrite for ScriptedLocal {
         }
         me.flushes = me.flushes.saturating_add(1);
         if me.spec.flush_err_at == Some(me.flushes) {
-            me.log.app(AppEv::LocalErr { stream: me.stream, op: "flush".into(), kind: "ConnectionAborted".into() });
-            return Poll::Ready(Err(Self::io_err("scripted flush error")));
+            me.log.app(AppEv::LocalErr { stream: me.stream, op: "flush".into(), kind: me.kind_name() });
+            return Poll::Ready(Err(me.io_err("scripted flush error")));
         }
         Poll::Ready(Ok(()))
     }
@@ -1231,8 +1252,8 @@ impl AsyncWrite for ScriptedLocal {
                 Poll::Ready(Ok(()))
             }
             LS::Err => {
-                me.log.app(AppEv::LocalErr { stream: me.stream, op: "shutdown".into(), kind: "ConnectionAborted".into() });
-                Poll::Ready(Err(Self::io_err("scripted shutdown error")))
+                me.log.app(AppEv::LocalErr { stream: me.stream, op: "shutdown".into(), kind: me.kind_name() });
+                Poll::Ready(Err(me.io_err("scripted shutdown error")))
             }
             LS::PendingUntil(k) => {
                 if me.wait(k, cx) {
